@@ -212,7 +212,7 @@ class VTask(Task):
 def make_tasks(behs: list[dict]) -> list[TaskExecution]:
     n = len(behs)
     return [
-        TaskExecution.create(name=f"t{i}", implementing_class=f"vtask{i}", stage_start=(i == 0), stage_end=(i == n - 1))
+        TaskExecution.create(name=f"t{i}", implementing_class=f"vskip{i}" if behs[i].get("kind") in ("disabled", "skippable") else f"vtask{i}", stage_start=(i == 0), stage_end=(i == n - 1))
         for i in range(n)
     ]
 
@@ -269,12 +269,35 @@ def register_builders() -> None:
         f.register(VBuilder(t))
 
 
+def _vskip_class():
+    from stabilize.tasks.interface import SkippableTask
+
+    class VSkip(SkippableTask):
+        """A task the engine may skip: disabled when its scripted behaviour says kind == 'disabled'."""
+
+        def __init__(self, idx: int = 0) -> None:
+            self.idx = idx
+            self._inner = VTask(idx)
+
+        def is_enabled(self, stage: StageExecution) -> bool:
+            behs = (stage.context.get("_v") or {}).get("t") or []
+            beh = behs[self.idx] if self.idx < len(behs) else {}
+            return beh.get("kind") != "disabled"
+
+        def do_execute(self, stage: StageExecution) -> TaskResult:
+            return self._inner.execute(stage)
+
+    return VSkip
+
+
 def make_registry() -> Any:
     from stabilize import TaskRegistry
 
     r = TaskRegistry()
+    VSkip = _vskip_class()
     for i in range(MAX_TASKS):
         r.register(f"vtask{i}", VTask(i))
+        r.register(f"vskip{i}", VSkip(i))
     return r
 
 
